@@ -90,6 +90,8 @@ func (it *recoveryIterator) next() (record, error) {
 			if err := it.segit.f.Truncate(int64(it.segit.offset)); err != nil {
 				return record{}, err
 			}
+			// Keep the cached size in step with the file: new records are appended at it.segit.f.size.
+			it.segit.f.size = int64(it.segit.offset)
 			fi, fierr := it.segit.f.Stat()
 			if fierr != nil {
 				return record{}, fierr
